@@ -456,8 +456,10 @@ End Machine.
    Cancelled` (code 2058, interned as answer 2 by the driver).  Open finding of C09
    (shared_admission_cancel_leak); it only concerns requests that pass through the shared
    iterators, i.e. never a HIGHER_CONSISTENCY request. *)
-Inductive prediction := PExact (a : N) | PExactOrCancelled (a : N) | PAnyAnswer.
+Inductive prediction := PExact (a : N) | PExactOrCancelled (a : N) | PExactOrError (a : N) | PAnyAnswer.
 Definition cancelled_code : N := 2.
+(* answer codes: 0 denied, 1 allowed, 2..99 error classes (2 = Request Cancelled), 100.. result sets *)
+Definition is_error (a : N) : bool := N.leb 2 a && N.ltb a 100.
 
 Record rcfg := mkR {
   r_query : bool; r_iter : bool; r_lo_iter : bool; r_shared : bool; r_ctrl : bool; r_v2 : bool
@@ -472,7 +474,10 @@ Record rreq := mkReq {
   rq_obs : N;             (* answer of the server under test *)
   rq_clobber : list N     (* ids of the OTHER Check requests whose top-level cache key this request may
                              (re)write as one of its dispatched sub-problems / candidate checks: same
-                             user, same context, same contextual tuples *)
+                             user, same context, same contextual tuples *);
+  rq_fault : bool         (* the driver made the datastore reads of the server under test fail during this
+                             request (transient fault): the request may fail, but a HIGHER_CONSISTENCY
+                             request must not fall back on a cached decision *)
 }.
 
 Inductive rop := RWrite | RReq (r : rreq).
@@ -519,7 +524,7 @@ Definition forget (ks : list N) (top : list (N * N)) : list (N * N) :=
 Definition through_shared (c : rcfg) (r : rreq) : bool :=
   r_shared c && ((is_check (rq_api r) && negb (r_v2 c)) || N.eqb (rq_api r) 2).
 
-Definition predict (c : rcfg) (st : rstate) (r : rreq) : prediction :=
+Definition predict0 (c : rcfg) (st : rstate) (r : rreq) : prediction :=
   if rq_hi r then PExact (rq_ref r)
   else if negb (caches_on c (rq_api r)) then PExact (rq_ref r)
   else match (if top_tracked c r && negb (r_ctrl c) then nlook (rs_top st) (rq_key r) else None) with
@@ -528,6 +533,12 @@ Definition predict (c : rcfg) (st : rstate) (r : rreq) : prediction :=
                  else if through_shared c r then PExactOrCancelled (rq_ref r)
                  else PExact (rq_ref r)
        end.
+
+(* under an injected datastore fault: the current answer or an error, never another decision *)
+Definition predict (c : rcfg) (st : rstate) (r : rreq) : prediction :=
+  if rq_fault r then
+    (if rq_hi r || negb (caches_on c (rq_api r)) then PExactOrError (rq_ref r) else PAnyAnswer)
+  else predict0 c st r.
 
 Definition rstep (c : rcfg) (st : rstate) (o : rop) : rstate :=
   match o with
@@ -550,6 +561,7 @@ Definition agrees (p : prediction) (obs : N) : bool :=
   match p with
   | PExact a => N.eqb a obs
   | PExactOrCancelled a => N.eqb a obs || N.eqb obs cancelled_code
+  | PExactOrError a => N.eqb a obs || is_error obs
   | PAnyAnswer => true
   end.
 
